@@ -18,7 +18,11 @@ def norm(text):
     return re.sub(r"\s+", " ", text).strip()
 
 def find_function(src, name):
-    """text of the C function or macro `name` in (comment-stripped) src; None if absent"""
+    """text of the C function or macro `name` in (comment-stripped) src; None if absent.
+    `NAME#k` selects the k-th `#define NAME` of the file (1-based) where a macro has several conditional variants."""
+    if "#" in name:
+        name, k = name.split("#"); ms = list(re.finditer(r"(?m)^[ \t]*#[ \t]*define[ \t]+%s\b((?:[^\n\\]|\\\n|\\.)*)" % re.escape(name), src))
+        return ms[int(k) - 1].group(0) if len(ms) >= int(k) else None
     m = re.search(r"(?m)^[ \t]*#[ \t]*define[ \t]+%s\b((?:[^\n\\]|\\\n|\\.)*)" % re.escape(name), src)
     if m: return m.group(0)
     for m in re.finditer(r"(?m)^(?:[A-Za-z_][\w \t\*]*?[ \t\*\n])?%s[ \t]*\((?:[^;{}()]|\([^()]*\))*\)\s*\{" % re.escape(name), src):
